@@ -19,12 +19,32 @@
 (* scaled by ZS) of which the specification only assumes that it is         *)
 (* strictly increasing, odd about u = 1/2 and zero there.                   *)
 (* ToModel: log kinds hand 10^x to the model, linear kinds x (tagged).      *)
+(*                                                                         *)
+(* Far tails ("all u in [0,1]"): besides the grid the quantifier is sampled  *)
+(* on a ladder  u = 2^-k  (side "lo") and  u = 1 - 2^-k  (side "hi"),        *)
+(* k \in TK, which reaches the smallest positive double (k = 1074) and the   *)
+(* largest double below one (k = HiMax = 53); every ladder point is an       *)
+(* exactly representable number.  The normal quantile on the ladder is a     *)
+(* second uninterpreted table ZT (ZT[k] ~ ZTS * Phi^-1(2^-k), filled by the  *)
+(* harness by inverting math.erfc) of which the specification assumes that   *)
+(* it decreases strictly in k, lies beyond the grid's outermost points and   *)
+(* agrees with Z where the ladder meets the grid; the upper side is its      *)
+(* mirror image (Phi^-1(1-u) = -Phi^-1(u)).                                  *)
+(*                                                                         *)
+(* Delivery: what Optimizer.update_model hands to the model for a sampled    *)
+(* value x is ToModel(prior, x) -- decided by the space of the PRIOR that    *)
+(* is attached to the parameter, whatever the parameter's fitting mode       *)
+(* (Delivery = "by_prior"); "by_mode" is the expected-counterexample variant.*)
 (***************************************************************************)
-EXTENDS Integers, Sequences, FiniteSets, TLC, Json, Rat
+EXTENDS Integers, Sequences, FiniteSets, TLC, Json, Rat, SequencesExt
 
 CONSTANTS UN,       \* u grid: u = k / UN, k \in 0..UN
           Ordering, \* "minmax": bounds are ordered by the constructor (the code); "as_given": not (self-test)
-          ZS, Z     \* Z[k] ~ ZS * Phi^-1(k/UN), k \in 1..UN-1
+          ZS, Z,    \* Z[k] ~ ZS * Phi^-1(k/UN), k \in 1..UN-1
+          TK,       \* tail ladder: u = 2^-k and u = 1 - 2^-k for k \in TK
+          HiMax,    \* 1 - 2^-k differs from 1 in the number format of u only for k <= HiMax (53 for binary64)
+          ZTS, ZT,  \* ZT[k] ~ ZTS * Phi^-1(2^-k), k \in 1..Len(ZT)
+          Delivery  \* "by_prior": update_model hands prior.prior(x) to the model (the code); "by_mode": self-test
 
 LogKinds == {"LogUniform", "LogGaussian"}
 UniKinds == {"Uniform", "LogUniform"}
@@ -59,6 +79,37 @@ Sample(p, k) == IF p.kind \in UniKinds THEN RAdd(p.a, RMul(U(k), RSub(p.b, p.a))
 Grid(p) == IF p.kind \in UniKinds THEN 0..UN ELSE 1..(UN - 1)     \* the normal quantile is infinite at 0 and 1
 ToModel(p, x) == [sp |-> IF SpaceOf(p.kind) = "log" THEN "pow10" ELSE "id", x |-> x]
 
+\* --------------------------------------------------------------- far tails
+UNLog == CHOOSE g \in 0..30 : Pow(2, g) = UN                      \* the grid is dyadic: 1/UN = 2^-UNLog
+TLo == SetToSortSeq(TK, LAMBDA x, y : x > y)                      \* u = 2^-k, smallest u first
+THi == SetToSortSeq({k \in TK : k <= HiMax}, LAMBDA x, y : x < y)  \* u = 1 - 2^-k, increasing
+\* the whole ladder in increasing order of u (all of the lower side lies below 1/UN, all of the upper above 1 - 1/UN)
+TailPts == [i \in 1..(Len(TLo) + Len(THi)) |->
+              IF i <= Len(TLo) THEN [side |-> "lo", k |-> TLo[i]] ELSE [side |-> "hi", k |-> THi[i - Len(TLo)]]]
+IsTailPt(pt) == pt.k \in TK /\ (pt.side = "lo" \/ (pt.side = "hi" /\ pt.k <= HiMax))
+\* exact order of two ladder points
+PtLt(x, y) == \/ x.side = "lo" /\ y.side = "hi"
+              \/ x.side = "lo" /\ y.side = "lo" /\ x.k > y.k
+              \/ x.side = "hi" /\ y.side = "hi" /\ x.k < y.k
+TailZ(pt) == IF pt.side = "lo" THEN ZT[pt.k] ELSE -ZT[pt.k]
+\* gaussian kinds: mean + std * table, a rational; uniform kinds: the linear form  a + w * u(pt)  (2^-1074 is no
+\* 32-bit rational: the form is exported and evaluated exactly at the boundary)
+TailSample(p, pt) == IF p.kind \in UniKinds THEN [a |-> p.a, w |-> RSub(p.b, p.a)]
+                     ELSE RAdd(p.a, RMul(p.b, R(TailZ(pt), ZTS)))
+TZAssumption ==
+    /\ \A k \in TK : k > UNLog /\ k <= Len(ZT)
+    /\ \A k, j \in TK : k < j => ZT[j] < ZT[k]
+    /\ \A k \in TK : ZT[k] * ZS < Z[1] * ZTS                         \* beyond the outermost grid point
+    /\ \A g \in 1..UNLog : 2 * Abs((Z[UN \div Pow(2, g)] * ZTS) - (ZT[g] * ZS)) <= ZTS + ZS   \* the tables agree on 2^-g = (UN/2^g)/UN
+
+\* ---------------------------------------------------------------- delivery
+\* a fitting parameter is declared in a mode and may be switched by set_mode before the fit
+ParamKinds == {"lin", "log", "lin2log", "log2lin"}
+ModeOf(pk) == IF pk \in {"log", "lin2log"} THEN "log" ELSE "linear"
+\* what update_model hands to the model's setter for the sampled value x of prior p on a parameter in `mode`
+Deliver(p, mode, x) == IF Delivery = "by_prior" THEN ToModel(p, x)
+                       ELSE [sp |-> IF mode = "log" THEN "pow10" ELSE "id", x |-> x]
+
 \* ---------------------------------------------------------------------- text
 \* documented syntax Name(key=value, ...); the class is found by its name, its lower-case
 \* or its upper-case spelling; any other name is an error
@@ -92,6 +143,17 @@ InverseCDF(p) == IF p.kind \in UniKinds
                  THEN \A k \in Grid(p) : RDiv(RSub(Sample(p, k), p.a), RSub(p.b, p.a)) = U(k)
                  ELSE /\ Sample(p, UN \div 2) = p.a
                       /\ \A k \in Grid(p) : RAdd(Sample(p, k), Sample(p, UN - k)) = RMul(Q(2), p.a)
+\* the same clauses on the tail ladder
+TailMonotone(p) ==
+    IF p.kind \in UniKinds THEN RLt(p.a, p.b)          \* a + w u increases with u iff w > 0 (the ladder is ordered exactly by PtLt)
+    ELSE /\ \A i \in 1..(Len(TailPts) - 1) : RLt(TailSample(p, TailPts[i]), TailSample(p, TailPts[i + 1]))
+         /\ \A i \in 1..Len(TailPts) :
+               IF TailPts[i].side = "lo" THEN RLt(TailSample(p, TailPts[i]), Sample(p, 1))
+               ELSE RLt(Sample(p, UN - 1), TailSample(p, TailPts[i]))
+TailOrdered == \A i, j \in 1..Len(TailPts) : i < j <=> PtLt(TailPts[i], TailPts[j])
+TailSymmetric(p) == p.kind \notin UniKinds =>
+    \A k \in TK : k <= HiMax =>
+        RSub(TailSample(p, [side |-> "lo", k |-> k]), p.a) = RNeg(RSub(TailSample(p, [side |-> "hi", k |-> k]), p.a))
 LinArgsEquivalent(c) == Build(c) = Build(LogForm(c))
 TextEqualsDirect(c) == /\ \A n \in Spellings[c.cls] : FromText(Text(c, n)) = Build(c)
                        /\ FromText(Text(c, "Foo")) = "error"
